@@ -320,14 +320,30 @@ def run_case(case, res):
                     bad.append("as_markdown=False still emits a code fence")
             # DOT default attributes (graph / node / edge) are layout only: the described graph stays the same
             base_dot = attempt(lambda: parse_dot(list(t.to_dot())))
+            import copy as _copy
+
             for kwd in ({"graph_attrs": {"rankdir": "LR"}}, {"node_attrs": {"shape": "box"}}, {"edge_attrs": {"color": "red"}},
                         {"graph_attrs": {"rankdir": "LR", "label": "G"}, "node_attrs": {"shape": "box"}, "edge_attrs": {"color": "red"}}):
-                gd = attempt(lambda: parse_dot(list(t.to_dot(**kwd))))
+                kw_before = _copy.deepcopy(kwd)
+                lines1 = attempt(lambda: list(t.to_dot(**kwd)))
+                gd = attempt(lambda: parse_dot(lines1))
                 res.count("dot_attr_variants")
                 if isinstance(gd, tuple) and gd and gd[0] == "EXC":
                     bad.append(f"to_dot({kwd}) raised {gd!r}")
                 elif gd != base_dot:
                     bad.append(f"to_dot({kwd}) describes another graph than the default call")
+                # the attribute dicts belong to the caller: unchanged by the export, and a second export with the very same dict
+                # objects - of this tree and of another one - gives the same text as with fresh dicts
+                if kwd != kw_before:
+                    bad.append(f"to_dot() wrote into the caller's attribute dicts: {kwd!r} (were {kw_before!r})")
+                from nutree import Tree as _PlainTree
+
+                pt = _PlainTree("P")
+                pt.add("pa").add("pb")
+                again_other = attempt(lambda: list(pt.to_dot(**kwd)))
+                fresh_other = attempt(lambda: list(pt.to_dot(**_copy.deepcopy(kw_before))))
+                if again_other != fresh_other:
+                    bad.append(f"an export of another tree with attribute dicts that were used before differs from one with fresh dicts ({kw_before!r})")
             tmpd = _tf.mkdtemp(prefix="vmon-c17-")
             try:
                 pth = _os.path.join(tmpd, "g.md")
